@@ -23,6 +23,11 @@ RunLemma == \A e3 \in e..MaxPos(ms, d) :
               Reg2Bin(b, e, ms, d) = Reg2Bin(b, e3, ms, d) =>
                  \A e2 \in e..e3 : Reg2Bin(b, e2, ms, d) = Reg2Bin(b, e, ms, d)
 BinRange == Reg2Bin(b, e, ms, d) \in 0..(LevelOffset(d + 1) - 1)
+\* bins depend only on the smallest-level tiles of the first and the last base: geometry (ms, d) at
+\* [b, e) is geometry (0, d) at [b div 2^ms, (e-1) div 2^ms + 1).  This is what lets the trace
+\* specification judge geometries whose positions exceed TLC's 32-bit integers in tile units.
+TileLemma == /\ Reg2Bin(b, e, ms, d) = Reg2Bin(b \div Pow2(ms), (e - 1) \div Pow2(ms) + 1, 0, d)
+             /\ Reg2Bins(b, e, ms, d) = Reg2Bins(b \div Pow2(ms), (e - 1) \div Pow2(ms) + 1, 0, d)
 GeomsQuick == {<<0, 2>>, <<1, 1>>}
 GeomsThorough == {<<0, 2>>, <<1, 2>>, <<1, 1>>, <<2, 1>>, <<0, 3>>}
 GeomsOverlap == {<<0, 2>>, <<1, 2>>}
